@@ -1,11 +1,18 @@
 // L7: trait impls and CtOption-returning forms over the proved inherent functions -- shared vocabulary.
+// (the regions live in l7_traits_limb / _uint / _int / _monty / _ops / _divops / _wrap)
 //
-// This unit holds (a) the rest of the model of the external crate `subtle` 2.6.1 that the trait forms need
-// (operators on `Choice`, `CtOption::{expect, unwrap, is_none, and_then, map}`, `ConstantTimeEq for u64`, `From<Choice> for bool`) -- ASSUMED,
-// same status as the model in l2_subtle.rs; (b) hand-written declarations of the crate traits of /repo/src/traits.rs
-// and of the `num_traits` traits the crate implements (trait declarations are not extracted); (c) the /repo glue
-// that every other l7 unit uses (`From<ConstCtOption<T>> for CtOption<T>`, `ConstantTimeEq for Limb`, `Zero`,
-// `NonZero::new`, `ConstCtOption<Int>::expect`).
+// This unit holds
+// (a) the rest of the model of the external crate `subtle` 2.6.1 that the trait forms need: operators on `Choice`
+//     (`& | !`, `ct_ne`), `CtOption::{expect, unwrap, is_none, and_then, map}`, `ConstantTimeEq for u64`,
+//     `From<Choice> for bool`, and the ghost trait `CtDefault` (what `<T as Default>::default()` is for the types that
+//     `and_then` / `map` are used with) -- ASSUMED, same status as the model in l2_subtle.rs (`external_body`);
+// (b) hand-written declarations of the crate traits of /repo/src/traits.rs (`CheckedAdd/Sub/Mul/Div`, `DivVartime`,
+//     `AddMod/SubMod/NegMod/MulMod`, `Zero`) and same-named LOCAL stand-ins of the `num_traits` traits the crate
+//     implements (`WrappingAdd/Sub/Mul/Neg`): trait declarations are not extracted;
+// (c) `uint_of` / `int_of`: spec-level construction of a `Uint` / `Int` from its value (proved), used where an operator
+//     result has to be stated as a vstd `*_spec` value;
+// (d) the /repo glue that the other l7 units share: `From<ConstCtOption<T>> for CtOption<T>`, `ConstantTimeEq for Limb`,
+//     `NonZero::new` (generic over `T: Zero`), and the `Zero` instances for Limb / Uint (hand-written, verified).
 //
 // Preconditions of trait methods.  Verus does not allow a `requires` on a method of a trait *impl*. The inherent
 // functions that the impls forward to carry `requires LIMBS >= 1` (and similar), so each hand-declared trait has,
